@@ -156,7 +156,24 @@ func runC12(c *core.Ctx) *core.Outcome {
 		o.Scenario = scenario(w, map[string]interface{}{"trace": trace})
 		return finish(o, w)
 	}
+	// one run in 5 on the text-key store: the records are found under their legacy names (the file name
+	// without the type character, which reads fall back to) - a store carried over from an older release
+	legacy := cfg.Backend == world.BackFs && t.Chance(1, 5)
+	if legacy {
+		o.Probes["run_with_records_under_legacy_names"]++
+	}
 	for i := 0; i < nreq; i++ {
+		if legacy && i > 0 {
+			for p, b := range stateFiles(disk) {
+				base := p[strings.LastIndex(p, "/")+1:]
+				if len(base) < 2 || strings.HasPrefix(base, ".") {
+					continue
+				}
+				disk.RemoveFile(p)
+				disk.SetFile(p[:len(p)-len(base)]+base[1:], b)
+				o.Probes["record_moved_to_legacy_name"]++
+			}
+		}
 		t.Begin("request")
 		sid := ids[t.Int(nsess)]
 		s := sess[sid]
